@@ -46,6 +46,9 @@ func (it *Interp) lookup(fr *frame, instr *ssa.Lookup, x, idx Value) Value {
 		vt := instr.X.Type().Underlying().(*types.Map).Elem()
 		var v Value
 		ok := false
+		if x != nil && it.lockLog != nil {
+			it.lockLog.accessObj(fr, x, false)
+		}
 		if x != nil {
 			if i := it.mapFind(fr, x, idx); i >= 0 {
 				v = copyVal(x.entries[i].v)
